@@ -116,6 +116,7 @@ func (vm *vm) run() error {
 	}
 
 	for {
+		verifVM(vm)
 		if vm.trace {
 			printStack(vm.output, vm.stack[:vm.tos])
 			vm.prog.disasmInstr(vm.pc)
